@@ -560,7 +560,7 @@ pub fn run(args: &Args, out: &mut Out) {
         }
         return;
     }
-    let n = args.n(600, 40_000);
+    let n = args.n(600, 20_000);
     for i in 0..n {
         let mut rng = Rng::for_case(args.seed, i);
         let buf = 1 + rng.usize(3);
